@@ -500,24 +500,30 @@ func runCase(t vh.TB, c *Case) vh.Outcome {
 			}
 		case "user":
 			id := identity(st.Caller)
-			// which backend should take it? (prefixes are disjoint: at most one per class)
-			var own, shared *bdef
+			// which backend should take it? (prefixes are disjoint between slots, but a re-registration for another end
+			// user can give one user two backends on the same prefix: then either of them is a correct choice)
+			var own, shared []bdef
 			for _, b := range registry {
-				b := b
 				if strings.HasPrefix(st.Path, b.prefix) {
 					if b.endUser == id.Email && id.Email != "" {
-						own = &b
+						own = append(own, b)
 					} else if b.endUser == "allUsers" {
-						shared = &b
+						shared = append(shared, b)
 					}
 				}
 			}
-			want := own
-			if want == nil {
-				want = shared
+			cands := own
+			if len(cands) == 0 {
+				cands = shared
 			}
-			if want != nil {
-				keepAlive(*want)
+			sort.Slice(cands, func(i, j int) bool { return cands[i].id < cands[j].id })
+			var want *bdef
+			for k := range cands {
+				keepAlive(cands[k])
+				want = &cands[0]
+			}
+			if len(cands) > 1 {
+				o.Classes = append(o.Classes, "two-backends-of-one-user-on-one-prefix")
 			}
 			tok := fmt.Sprintf("user-%d-%d", run, i)
 			p := &pending{token: tok, user: id.Email, done: make(chan *aerig.Response, 1)}
@@ -582,8 +588,12 @@ func runCase(t vh.TB, c *Case) vh.Outcome {
 			if !ok || (b.endUser != id.Email && b.endUser != "allUsers") || id.Email == "" {
 				return fail(i, "the request of user %q on %s was routed to backend %q, which is registered for %q", id.Email, st.Path, bid, b.endUser)
 			}
-			if want == nil || want.id != bid {
-				return fail(i, "the request of user %q on %s was routed to backend %q, expected %v", id.Email, st.Path, bid, want)
+			okCand := false
+			for _, cb := range cands {
+				okCand = okCand || cb.id == bid
+			}
+			if !okCand {
+				return fail(i, "the request of user %q on %s was routed to backend %q, expected one of %v", id.Email, st.Path, bid, cands)
 			}
 			p.backend = bid
 			pend = append(pend, p)
